@@ -782,6 +782,73 @@ def rule_Q1_Q2(ctx, rid1='Q1', rid2='Q2'):
                     mult_on = True
         ctx.ob(rid1, 'Union.sample:multiplicity-of-same-proposals', mult_on, f.where(sast),
                'the multiplicity is counted for the very proposals that are thinned')
+    # the acceptance probability is exactly 1 / multiplicity: evaluated as a rational function
+    # of the multiplicity m for the comparison that builds the mask
+    from .volumes import ratfun, p_mul, p_sym, p_const, p_add, Undecided as _Und
+    if dep:
+        sid, sl, sast = dep[0]
+        cmp_ = sl
+        seen = 0
+        while isinstance(cmp_, ast.Name) and seen < 4:
+            seen += 1
+            ds = cfg.defs_at(sid, cmp_.id)
+            if len(ds) != 1 or not isinstance(cfg.nodes[next(iter(ds))].ast, ast.Assign):
+                break
+            sid = next(iter(ds))
+            cmp_ = cfg.nodes[sid].ast.value
+        neg = False
+        while isinstance(cmp_, ast.UnaryOp) and isinstance(cmp_.op, (ast.Invert, ast.Not)):
+            neg = not neg
+            cmp_ = cmp_.operand
+        if isinstance(cmp_, ast.Compare) and len(cmp_.ops) == 1 and \
+                isinstance(cmp_.ops[0], (ast.Lt, ast.LtE, ast.Gt, ast.GtE)):
+            l, r = cmp_.left, cmp_.comparators[0]
+
+            def is_draw(e):
+                return isinstance(e, ast.Call) and (dotted(e.func) or '').split('.')[-1] in (
+                    'random', 'uniform') and 'rng' in (dotted(e.func) or '')
+            thr = r if is_draw(l) else (l if is_draw(r) else None)
+            if thr is not None:
+                draw_left = is_draw(l)
+                less = isinstance(cmp_.ops[0], (ast.Lt, ast.LtE))
+                # P(U < t) = t ; P(U > t) = 1 - t
+                prob_is_t = (draw_left and less) or ((not draw_left) and not less)
+                if neg:
+                    prob_is_t = not prob_is_t
+
+                def msym(e, _sid=sid):
+                    if is_multiplicity(e):
+                        return 'm'
+                    if isinstance(e, ast.Name):
+                        for d in cfg.defs_at(_sid, e.id):
+                            dn = cfg.nodes[d]
+                            if dn.kind == 'stmt' and isinstance(dn.ast, ast.Assign) and \
+                                    is_multiplicity(dn.ast.value):
+                                return 'm'
+                    return None
+
+                def expand(e, at, depth=0):
+                    """inline single-definition locals that are not the multiplicity"""
+                    if depth > 4 or not isinstance(e, ast.Name) or msym(e) is not None:
+                        return e
+                    ds = cfg.defs_at(at, e.id)
+                    if len(ds) == 1 and isinstance(cfg.nodes[next(iter(ds))].ast, ast.Assign):
+                        return cfg.nodes[next(iter(ds))].ast.value
+                    return e
+                try:
+                    num, den = ratfun(expand(thr, sid), msym)
+                    if not prob_is_t:
+                        num, den = p_add(den, num, -1), den
+                    oka = p_mul(num, p_sym('m')) == den and bool(den)
+                    ctx.ob(rid1, 'Union.sample:acceptance-is-inverse-multiplicity', oka,
+                           f.where(sast),
+                           'a proposal covered by m members is kept with probability 1/m: every '
+                           'point of the union is proposed with the same density' if oka else
+                           'a proposal covered by m members is kept with a probability that is '
+                           'not 1/m (threshold `%s`): overlapping regions are over- or '
+                           'under-represented' % unparse(thr)[:40])
+                except _Und as exc:
+                    ctx.note('Q1 acceptance probability not decided: %s' % exc)
     # Q2
     mults = [n for n in cfg.nodes if n.kind == 'stmt' and isinstance(n.ast, ast.Assign) and
              isinstance(n.ast.value, ast.Call) and
